@@ -16,5 +16,6 @@ for sd in "${seeds[@]}"; do
 done
 # the generated model files and evidence now describe the last seeded tree: regenerate from the clean one
 ./check setup >/dev/null 2>&1
+for id in $(printf '%s\n' "${seeds[@]}" | sed 's/-.*//' | sort -u); do ./check $id >/dev/null 2>&1 || echo "WARNING: ./check $id does not pass on the clean tree"; done
 echo "missed=$missed"
 exit $missed
